@@ -49,6 +49,7 @@ fn main() {
     let run_args = RunArgs { tier, seed, replay, workers, cases_override };
     let code = match id.as_str() {
         "C01" => run_property(props::c01_safety::C01, run_args),
+        "C02" => run_property(props::c02_progress::C02, run_args),
         "C03" => run_property(props::c03_certs::C03, run_args),
         "C04" => run_property(props::c04_admission::C04, run_args),
         "C05" => run_property(props::c05_own_votes::C05, run_args),
